@@ -207,15 +207,18 @@ Example r4_gain_partial_nonvacuous :
 Proof. exact C02Proofs.r4_gain_partial_nonvacuous_lemma. Qed.
 Print Assumptions r4_gain_partial_nonvacuous.
 
-(* (9) R4 loss as specified is violated by the as-is resolver: a state whose
+(* (9) R4 loss as specified is violated by the as-is resolver when started from
+   an INCONSISTENT active set (state 0 active while its Require 3 is not: the
+   start violates R1 and is unreachable, see inv_reachable): a state whose
    Require only arrives with the second parseAdd pass is dropped in the first *)
-Theorem r4_loss_refuted :
+Theorem r4_loss_inconsistent_start_refuted :
   exists sc topo active mt called,
     r4_loss_ok sc mt called active (resolve sc topo active mt called) = false /\
+    r1_ok sc active = false /\
     active = [0] /\ resolve sc topo active mt called = [3; 1; 2] /\
     s_require (sget sc 0) = [3].
-Proof. exact C02Proofs.r4_loss_refuted_lemma. Qed.
-Print Assumptions r4_loss_refuted.
+Proof. exact C02Proofs.r4_loss_inconsistent_start_refuted_lemma. Qed.
+Print Assumptions r4_loss_inconsistent_start_refuted.
 
 (* every lost state is justified as specified, or missed a Require already in
    the first pass (the list that enters the scan) *)
@@ -260,3 +263,62 @@ Example r4_loss_nonvacuous :
    r4_loss_ok sc MAdd [0] [1] (resolve sc [] [1] MAdd [0]) = true).
 Proof. exact C02Proofs.r4_loss_nonvacuous_lemma. Qed.
 Print Assumptions r4_loss_nonvacuous.
+
+(* (10) R4 loss from consistent start states. False for Set mutations, even
+   from a start reachable from the empty machine that satisfies R1 and R2:
+   0 Requires 1; 2 Adds 3; 3 Adds 1;  [] --Add [0;1]--> [0;1] --Set [0;2]--> [1;2;3].
+   0 is lost although called, its Require 1 is active afterwards and nothing
+   Removes it *)
+Theorem r4_loss_consistent_refuted :
+  exists sc topo (ops : list (mut_type * list nat)) mt called,
+    let active := fold_left (fun act op => resolve sc topo act (fst op) (snd op)) ops [] in
+    r1_ok sc active = true /\ r2_ok sc active = true /\ NoDup active /\
+    active = [0; 1] /\ resolve sc topo active mt called = [1; 2; 3] /\
+    r4_loss_ok sc mt called active (resolve sc topo active mt called) = false.
+Proof. exact C02Proofs.r4_loss_consistent_refuted_lemma. Qed.
+Print Assumptions r4_loss_consistent_refuted.
+
+(* true for Add and Remove mutations from any Require-closed start *)
+Theorem r4_loss_consistent_partial :
+  forall sc topo active mt called,
+    mt <> MSet -> r1_ok sc active = true ->
+    r4_loss_ok sc mt called active (resolve sc topo active mt called) = true.
+Proof. exact C02Proofs.r4_loss_consistent_partial_lemma. Qed.
+Print Assumptions r4_loss_consistent_partial.
+
+Example r4_loss_consistent_partial_nonvacuous :
+  let sd := fun (multi : bool) (req : list nat) =>
+    {| s_auto := false; s_multi := multi; s_require := req; s_add := [];
+       s_remove := []; s_after := [] |} in
+  let sc := [sd false []; sd false [0]; sd true []] in
+  r1_ok sc [0; 1] = true /\ MRemove <> MSet /\
+  resolve sc [] [0; 1] MRemove [0] = [] /\
+  diff [0; 1] (resolve sc [] [0; 1] MRemove [0]) = [0; 1].
+Proof. exact C02Proofs.r4_loss_consistent_partial_nonvacuous_lemma. Qed.
+Print Assumptions r4_loss_consistent_partial_nonvacuous.
+
+(* (11) invariants of every active list reachable from the empty machine *)
+Theorem inv_reachable :
+  forall sc topo (ops : list (mut_type * list nat)),
+    r1_ok sc (fold_left (fun act op => resolve sc topo act (fst op) (snd op)) ops []) = true.
+Proof. exact C02Proofs.inv_reachable_lemma. Qed.
+Print Assumptions inv_reachable.
+
+Theorem resolve_NoDup :
+  forall sc topo active mt called, NoDup (resolve sc topo active mt called).
+Proof. exact C02Proofs.resolve_NoDup_lemma. Qed.
+Print Assumptions resolve_NoDup.
+
+Theorem inv_reachable_NoDup :
+  forall sc topo (ops : list (mut_type * list nat)),
+    NoDup (fold_left (fun act op => resolve sc topo act (fst op) (snd op)) ops []).
+Proof. exact C02Proofs.inv_reachable_NoDup_lemma. Qed.
+Print Assumptions inv_reachable_NoDup.
+
+Theorem r4_loss_reachable :
+  forall sc topo (ops : list (mut_type * list nat)) mt called,
+    mt <> MSet ->
+    let active := fold_left (fun act op => resolve sc topo act (fst op) (snd op)) ops [] in
+    r4_loss_ok sc mt called active (resolve sc topo active mt called) = true.
+Proof. exact C02Proofs.r4_loss_reachable_lemma. Qed.
+Print Assumptions r4_loss_reachable.
